@@ -262,6 +262,42 @@ theorem painter_eq_zbuf (cp cz : Ctx) (hp : Painter cp) (hz : ZBuf cz) (shade : 
       simp only [hlt, if_true]
       exact List.rel_of_pairwise_cons hsorted hg
 
+/-- **Painter = z-buffer, duplicates allowed.** As `painter_eq_zbuf`, but the same fragment may arrive more
+than once (two clipped pieces of one triangle meeting at a pixel deliver the same fragment): fragments
+arrive in non-decreasing depth and equal depth means equal fragment. -/
+theorem painter_eq_zbuf_weak (cp cz : Ctx) (hp : Painter cp) (hz : ZBuf cz) (shade : List K → Option C)
+    (fs : List (List K)) (hsorted : fs.Pairwise (fun f g => nth2 f < nth2 g ∨ f = g)) (s : C × K)
+    (hinit : ∀ f ∈ fs, shade f = none ∨ s.2 < nth2 f ∨ (shade f = some s.1 ∧ nth2 f = s.2)) :
+    pixelFold cp shade fs s = pixelFold cz shade fs s := by
+  induction fs generalizing s with
+  | nil => rfl
+  | cons f rest ih =>
+    simp only [pixelFold, List.foldl_cons] at *
+    have hrest := List.Pairwise.of_cons hsorted
+    rcases hinit f (by simp) with hn | hlt | ⟨hs, hd⟩
+    · -- not shaded: both leave the pixel alone
+      rw [painter_step cp hp, zbuf_step cz hz, hn]
+      exact ih hrest s (fun g hg => hinit g (List.mem_cons_of_mem _ hg))
+    · cases hs : shade f with
+      | none =>
+        rw [painter_step cp hp, zbuf_step cz hz, hs]
+        exact ih hrest s (fun g hg => hinit g (List.mem_cons_of_mem _ hg))
+      | some col =>
+        rw [painter_step cp hp, zbuf_step cz hz, hs]
+        simp only [hlt, if_true]
+        apply ih hrest
+        intro g hg
+        rcases List.rel_of_pairwise_cons hsorted hg with h | h
+        · exact Or.inr (Or.inl h)
+        · subst h; exact Or.inr (Or.inr ⟨hs, rfl⟩)
+    · -- the fragment the pixel already holds
+      rw [painter_step cp hp, zbuf_step cz hz, hs]
+      have hnlt : ¬ s.2 < nth2 f := by rw [hd]; exact lt_irrefl _
+      simp only [hnlt, if_false]
+      have e : (s.1, nth2 f) = s := by rw [hd]
+      rw [e]
+      exact ih hrest s (fun g hg => hinit g (List.mem_cons_of_mem _ hg))
+
 /-! ### Non-vacuity -/
 
 example : ZBuf ({} : Ctx) := ⟨rfl, rfl, rfl⟩
